@@ -179,11 +179,20 @@ def dense_fill_change(ctx, f, ex, p):
     idx, val = s.data["index"], s.data["value"]
     ok = len(idx) == 1 and isinstance(idx[0], SliceV) and isinstance(idx[0].lo, Num) and isinstance(idx[0].hi, Num)
     lst = None
+    pair = None
     if ok:
         lo_a, hi_a = single_atom(idx[0].lo.nf), single_atom(idx[0].hi.nf)
-        ok = lo_a is not None and hi_a is not None and lo_a.kind == "app" and hi_a.kind == "app" and lo_a.args[0] == "listitem" and hi_a.args[0] == "listitem" and lo_a.args[1] == hi_a.args[1] and nf_equal(lo_a.args[2], lv) and nf_equal(hi_a.args[2], lv + 1)
+        both = lo_a is not None and hi_a is not None and lo_a.kind == "app" and hi_a.kind == "app" and lo_a.args[0] == "listitem" and hi_a.args[0] == "listitem"
+        ok = both and lo_a.args[1] == hi_a.args[1] and nf_equal(lo_a.args[2], lv) and nf_equal(hi_a.args[2], lv + 1)
         if ok:
             lst = idx[0].lo.meta.get("list_item", (None, None))[0]
+        elif both and lo_a.args[1] != hi_a.args[1] and nf_equal(lo_a.args[2], lv) and nf_equal(hi_a.args[2], lv):
+            # idiom C: two parallel lists, starts = [0] + changepoints and ends = changepoints + [n], read at the same i
+            A = idx[0].lo.meta.get("list_item", (None, None))[0]
+            B = idx[0].hi.meta.get("list_item", (None, None))[0]
+            if A is not None and B is not None:
+                pair = (A, B)
+                ok = True
     ctx.check(ok, rule, "ChangeDetector|slice", s.loc(), "segment i is written on rows [bounds[i], bounds[i+1])", found=f"[{valkey(idx[0].lo) if idx and isinstance(idx[0], SliceV) else '?'} : {valkey(idx[0].hi) if idx and isinstance(idx[0], SliceV) else '?'}]", expected="bounds[i] : bounds[i + 1]")
     ctx.check(isinstance(val, Num) and nf_equal(val.nf, lv) and not s.data.get("aug"), rule, "ChangeDetector|label", s.loc(), "and gets label i (segments numbered from 0)", found=repr(val), expected="i")
     if lst is not None:
@@ -195,6 +204,22 @@ def dense_fill_change(ctx, f, ex, p):
         rng = lp.info.get("range")
         okr = rng is not None and rng[0].as_const() == 0 and rng[2].as_const() == 1 and _is_len_minus_one(rng[1], lst)
         ctx.check(okr, rule, "ChangeDetector|all-segments", f.loc(lp.node), "all len(bounds) - 1 segments are written", found=repr(rng))
+    if pair is not None:
+        A, B = pair
+        fa, fb = _flatten_list(A), _flatten_list(B)
+        is_cps = lambda q: "ilocs" in str(getattr(q, "key", "")) and "y_sparse" in str(getattr(q, "key", ""))  # noqa: E731
+        first_ok = len(fa) == 2 and not fa[0].opaque and len(fa[0].items) == 1 and isinstance(fa[0].items[0], Num) and fa[0].items[0].nf.as_const() == 0 and is_cps(fa[1])
+        last_ok = len(fb) == 2 and not fb[1].opaque and len(fb[1].items) == 1 and isinstance(fb[1].items[0], Num) and nf_equal(fb[1].items[0].nf, lift(N)) and is_cps(fb[0])
+        same = first_ok and last_ok and (fa[1] is fb[0] or getattr(fa[1], "key", 0) == getattr(fb[0], "key", 1))
+        ctx.check(first_ok and last_ok and same, rule, "ChangeDetector|bounds", f.loc(), "segment starts == [0] + changepoints and segment ends == changepoints + [len(index)] (of the same changepoints)", found=[repr(x)[:50] for x in fa + fb])
+        rng = lp.info.get("range")
+        # both lists hold len(changepoints) + 1 elements; the loop runs over all of them
+        okr = False
+        if rng is not None and rng[0].as_const() == 0 and rng[2].as_const() == 1:
+            for q in (A, B):
+                la = [x for x in atoms_of(rng[1], deep=False).values() if x.kind == "app" and x.args[0] == "listlen" and x.args[1] == q.lid]
+                okr = okr or (len(la) == 1 and nf_equal(rng[1], NF.atom(la[0])))
+        ctx.check(okr, rule, "ChangeDetector|all-segments", f.loc(lp.node), "all len(changepoints) + 1 segments are written", found=repr(rng))
 
 
 def _is_len_minus_one(nf, lst):
@@ -265,7 +290,16 @@ def check_d2s(ctx, cls):
             else:
                 ctx.undecided("C05.d LABEL-SENSITIVE", "SubsetCollectiveAnomalyDetector|label-order", aps[0].loc(), "cannot tell in which order the labels are visited", found=ok_[:160])
         if aps:
-            spec_equal(ctx, "C05.f SPEC-EQ", "SubsetCollectiveAnomalyDetector|dense_to_sparse", aps[0].loc(), [_vkey(x) for x in aps[0].data["value"].items], "subset_intervals", "one anomaly per positive label: (first labelled row, last labelled row + 1, labelled columns)")
+            # the affected columns are column POSITIONS: np.flatnonzero of a column mask, or .columns[mask] after the columns
+            # were replaced by range(number of columns)
+            creset = _columns_reset(p)
+            items = aps[0].data["value"].items
+            if len(items) >= 3:
+                ck = _vkey(items[2])
+                by_label = "columns(" in ck and not creset
+                positional = ("columns(" in ck and creset) or (("flatnonzero" in ck or "numpy.where" in ck or "arange" in ck) and "columns(" not in ck)
+                ctx.check(positional and not by_label, rule, f"{cls.name}|column-positions", aps[0].loc(), "the affected columns are reported as integer column positions (flatnonzero of the column mask, or .columns[mask] after `columns = range(...)`), never as column labels", found=("columns were not replaced by range(...) before .columns[mask] was read: " if by_label else "") + ck[:160], expected="positions")
+            spec_equal(ctx, "C05.f SPEC-EQ", "SubsetCollectiveAnomalyDetector|dense_to_sparse", aps[0].loc(), [_vkey(x) for x in items], "subset_intervals", "one anomaly per positive label: (first labelled row, last labelled row + 1, labelled columns)", columns_reset=creset)
     # ------------------------------------------------------------ LABEL-SENSITIVE
     if cls.name == "CollectiveAnomalyDetector":
         ks = " ".join(keys)
@@ -282,12 +316,53 @@ def check_d2s(ctx, cls):
         ctx.check("unique" in ks, "C05.d LABEL-SENSITIVE", "SubsetCollectiveAnomalyDetector", fm[0].loc(), "one anomaly per distinct label value (iteration over np.unique(labels))", found=ks[:200])
 
 
-def _norm_key(k: str) -> str:
+def _balanced(k: str, i: int) -> int:
+    """index just past the parenthesis group that opens at k[i] == '(' (quotes inside keys are not special: the keys are
+    built from balanced constructor calls)"""
+    depth = 0
+    for j in range(i, len(k)):
+        if k[j] == "(":
+            depth += 1
+        elif k[j] == ")":
+            depth -= 1
+            if depth == 0:
+                return j + 1
+    return -1
+
+
+def _positional_masks(k: str, columns_reset: bool) -> str:
+    """X.index[M] of a frame whose index was reset (reset_index(drop=True)) and X.columns[M] of a frame whose columns were
+    replaced by range(...) are the POSITIONS where M holds: np.flatnonzero(M).  Rewritten to that canonical form."""
+    for attr in ("index", "columns"):
+        head = f"idx({attr}("
+        start = 0
+        while True:
+            i = k.find(head, start)
+            if i == -1:
+                break
+            j = _balanced(k, i + len(head) - 1)  # past attr(...)
+            x = k[i + len(head): j - 1] if j != -1 else ""
+            tail = ", ((mask, "
+            ok = j != -1 and k.startswith(tail, j) and ((attr == "index" and "reset_index()" in x) or (attr == "columns" and columns_reset))
+            if not ok:
+                start = i + len(head)
+                continue
+            end = _balanced(k, i + 3)  # past idx(...)
+            if end == -1:
+                break
+            cond = k[j + len(tail): end - 3]  # strip the closing ")))": of (mask, C), of the index tuple and of idx(
+            k = k[:i] + f"flatnonzero({cond})" + k[end:]
+            start = i
+    return k
+
+
+def _norm_key(k: str, columns_reset: bool = False) -> str:
     import re
 
     k = re.sub(r"lv\([^)]*\)", "lv", k)
     # .values and .to_numpy() are the same array
     k = k.replace(".to_numpy()", ".values")
+    k = _positional_masks(k, columns_reset)
     return k
 
 
@@ -320,7 +395,23 @@ def _vkey(x):
     return valkey(x)
 
 
-def spec_equal(ctx, rule, key, loc, got_keys, specname, what):
+def _columns_reset(p):
+    """the path replaces the columns of the label frame by range(...) (column labels become column positions)"""
+    from ..values import RangeV
+
+    for e in p.events:
+        if e.kind == "ext_attr_store" and e.data.get("attr") == "columns":
+            v = e.data.get("value")
+            if isinstance(v, RangeV) and isinstance(v.lo, Num) and v.lo.nf.as_const() == 0 and v.step.nf.as_const() == 1 and "columns" in valkey(v.hi) and "size" in valkey(v.hi):
+                return True
+            if isinstance(v, Num) and v.nf is not None:
+                a = single_atom(v.nf)
+                if a is not None and a.kind == "app" and a.args[0] == "arange" and lift(a.args[1]).as_const() == 0:
+                    return True
+    return False
+
+
+def spec_equal(ctx, rule, key, loc, got_keys, specname, what, columns_reset=False):
     """Compare the expressions that reach the formatter with the specification spec/dense.py:<specname>, both as the engine
     normalises them on the same un-interpreted label frame.  Equal: HOLDS.  Same expression skeleton but another
     comparison operator or constant: VIOLATION (an off-by-one or a flipped test).  Another skeleton: the library computes
@@ -337,11 +428,13 @@ def spec_equal(ctx, rule, key, loc, got_keys, specname, what):
         if not aps or not isinstance(aps[0].data["value"], TupleV):
             raise Undecided("specification dense.subset_intervals records nothing")
         wk = [_vkey(x) for x in aps[0].data["value"].items]
+        w_reset = _columns_reset(sp[0])
     else:
+        w_reset = False
         want, sx = run_spec(ctx, "dense", specname, lambda ex: [OpaqueV("y_dense", {"kind": "frame"})], fmt_summaries(ctx))
         wk = [valkey(x) for x in (want.items if isinstance(want, TupleV) else [want])]
-    g = [_norm_key(k) for k in got_keys]
-    w = [_norm_key(k) for k in wk]
+    g = [_norm_key(k, columns_reset) for k in got_keys]
+    w = [_norm_key(k, w_reset) for k in wk]
     if g == w:
         ctx.holds(rule, key, loc, f"{what}: the expressions handed to the formatter equal the specification spec/dense.py:{specname}")
         return
